@@ -345,6 +345,10 @@ func (s *Service) accountPathsToVerificationRegexes(paths []string) []*regexp.Re
 		if len(parts) == 1 {
 			parts = append(parts, ".*")
 		}
+		if len(parts) > 2 {
+			// Everything after the wallet is the account part; do not drop what follows a further separator.
+			parts[1] = strings.Join(parts[1:], "/")
+		}
 		parts[1] = strings.TrimPrefix(parts[1], "^")
 		// Alternation binds more loosely than concatenation, so group a part that uses it
 		// to keep the anchors and the wallet/account separator applying to every alternative.
